@@ -16,7 +16,11 @@ func (st *programState) evaluateExpr(expr parser.ValueExpr) (Value, InterpreterE
 	case *parser.StringLiteral:
 		return String(expr.String), nil
 	case *parser.RatioLiteral:
-		return Portion(*expr.ToRatio()), nil
+		rat, err := ratioLiteralToRat(expr)
+		if err != nil {
+			return nil, err
+		}
+		return Portion(*rat), nil
 	case *parser.NumberLiteral:
 		return MonetaryInt(*big.NewInt(int64(expr.Number))), nil
 	case *parser.MonetaryLiteral:
@@ -123,4 +127,17 @@ func (st *programState) subOp(left parser.ValueExpr, right parser.ValueExpr) (Va
 	}
 
 	return (*leftValue).evalSub(st, right)
+}
+
+// A ratio literal with a zero denominator (e.g. "1/0") is not a portion:
+// report it instead of letting big.Rat panic
+func ratioLiteralToRat(expr *parser.RatioLiteral) (*big.Rat, InterpreterError) {
+	if expr.Denominator == nil || expr.Numerator == nil || expr.Denominator.Sign() == 0 {
+		return nil, BadPortionParsingErr{
+			Range:  expr.Range,
+			Source: "literal",
+			Reason: "the denominator of a portion cannot be zero",
+		}
+	}
+	return expr.ToRatio(), nil
 }
